@@ -16,8 +16,9 @@ TEMPLATE = os.path.join(os.path.dirname(os.path.dirname(os.path.abspath(__file__
 BOUNDS = ("symx part: Unit.parse_quantity for all 10 prefixes x {mol, g, L, M, U} and Unit.parse_concentration for M, m, the "
           "percent forms and every numerator {mol,g,L,U} x denominator {mol,g,L,U} pair x 10x10 prefixes, with and without "
           "a denominator value, the value(s) symbolic in [-1e6, 1e6] / [1e-6, 1e6]; 6 classes of equivalent spellings parse "
-          "equal; Container construction, transfer, create_solution, dilute and get_concentration give identical results "
-          "for equivalent spellings (symbolic amounts). CrossHair part: the whole string symbolic (all of unicode, length "
+          "equal; Container construction, transfer, create_solution, create_solution_from (molar, molal, w/w, v/v and g/L "
+          "classes, liquid solute), dilute and get_concentration give identical results for equivalent spellings (symbolic "
+          "amounts), and the solution made has the concentration the string denotes. CrossHair part: the whole string symbolic (all of unicode, length "
           "<= 6), the unit token symbolic (length <= 5) after a fixed value, the value token symbolic (<= 6), numerator / "
           "denominator unit tokens (<= 3 each), and arbitrary tails (<= 4) appended to valid strings.")
 OUTSIDE = ("IEEE rounding; strings longer than the stated lengths; CrossHair verdicts other than 'Confirmed over all paths' "
@@ -40,7 +41,9 @@ def cells(tier, seed):
                         'params': {'n': n, 'd': d}})
     out.append({'id': "concentration/special", 'fn': 'h_special', 'round': 'lite', 'max_paths': 50, 'params': {}})
     out.append({'id': "equivalent/parse", 'fn': 'h_equiv_parse', 'round': 'lite', 'max_paths': 50, 'params': {}})
-    for sc in ['ctor', 'transfer', 'create_solution', 'dilute', 'get_concentration', 'fill_to']:
+    for sc in ['ctor', 'transfer', 'create_solution', 'dilute', 'get_concentration', 'fill_to', 'create_solution_from/molar',
+               'create_solution_from/v/v', 'create_solution_from/w/w', 'create_solution_from/g/L', 'create_solution/v/v',
+               'create_solution/w/w', 'create_solution/g/L', 'create_solution/molal']:
         out.append({'id': f"equivalent/{sc}", 'fn': 'h_equiv_use', 'round': 'lite', 'max_paths': 300, 'cost': 3,
                     'params': {'scenario': sc}})
     return out
@@ -158,6 +161,27 @@ def h_equiv_use(h):
             h.assume(h.le(v, 5))
             res = [C.create_solution(salt, water, name='s', concentration=c, total_quantity=t)
                    for c, t in zip(_classes(v)['molar'][:6], [f"{T} mL", f"{T * 1000} uL", f"{T / 1000} L", f"{T} mL", f"{T / 10} cL", f"{T} mL"])]
+        elif sc.startswith('create_solution_from/') or sc.startswith('create_solution/'):
+            # a liquid solute, so that every class (also v/v) applies; each class of spellings must give one and the same
+            # solution, and that solution must have the concentration the first spelling denotes (reference arithmetic)
+            cname = sc.split('/', 1)[1]
+            lib2 = Lib(h, ['water', 'DMSO'])
+            w2, dmso = lib2['water'], lib2['DMSO']
+            factor = {'molar': 1, 'v/v': 5, 'w/w': 5, 'g/L': 50, 'molal': 1}[cname]
+            cu = {'molar': 'M', 'v/v': '%v/v', 'w/w': '%w/w', 'g/L': 'g/L', 'molal': 'm'}[cname]
+            h.assume(h.le(v, 5))
+            T = h.real('T', Fr(1, 10), 10**3)
+            spellings = _classes(v * factor)[cname]
+            if sc.startswith('create_solution_from/'):
+                stock = C('stock', initial_contents=[(w2, '50 mL'), (dmso, '50 mL')])
+                res = [C.create_solution_from(stock, dmso, sp, w2, f"{T} mL", name='s')[1] for sp in spellings]
+            else:
+                res = [C.create_solution(dmso, w2, name='s', concentration=sp, total_quantity=f"{T} mL") for sp in spellings]
+            nb, db, scale = conc_def(h, cu)
+            num = lib2.amount(dmso, res[0].contents.get(dmso, 0), nb)
+            den = lib2.total(res[0].contents, db)
+            h.require('meaning', h.eq(num * scale, v * factor * den, h.rs(Fr(1, 10**6) * (scale * num + v * factor * den))),
+                      region=sc, detail=f"the solution made for '{spellings[0]}' has that concentration of DMSO")
         elif sc == 'dilute':
             c = C('c', initial_contents=[(water, '100 mL'), (salt, '50 g')])
             h.assume(h.le(v, 5))
